@@ -107,6 +107,29 @@ theorem euclKernel_apply (sqrt : α → α) (x : Nat → Nat → α) (d N a b : 
     euclKernel sqrt x d N a b = sqrt (sumsq x d (max a b) (min a b)) := by
   simp [euclKernel, fillSym_apply, ha, hb]
 
+/-- *structural* (round 5) — reading the `N × N` block out of the filled matrix gives, cell by
+cell, the loop body at `(max a b, min a b)`: the closed-form read-out `symBlock` the driver uses
+for large grids is the fill -/
+theorem fillSym_block {β : Type} (N : Nat) (f : Nat → Nat → β) (M : Nat → Nat → β) :
+    toLists N (fillSym N f M) = symBlock N f := by
+  unfold toLists symBlock
+  apply List.map_congr_left
+  intro a ha
+  apply List.map_congr_left
+  intro b hb
+  rw [fillSym_apply, if_pos ⟨List.mem_range.1 ha, List.mem_range.1 hb⟩]
+
+/-- the angular kernel's block, as answered by the driver for `N > 16` -/
+theorem cosAngKernel_block (sl cl sn cn : Nat → α) (N : Nat) :
+    toLists N (cosAngKernel sl cl sn cn N)
+      = symBlock N (fun i j => clamp (cosExpr sl cl sn cn i j)) :=
+  fillSym_block N _ _
+
+/-- the Euclidean kernel's block -/
+theorem euclKernel_block (sqrt : α → α) (x : Nat → Nat → α) (d N : Nat) :
+    toLists N (euclKernel sqrt x d N) = symBlock N (fun i j => sqrt (sumsq x d i j)) :=
+  fillSym_block N _ _
+
 /-- *structural* — `Grid.euclidean_distance()` is exactly symmetric. -/
 theorem euclideanDistance_symm (T : Trig α) (x : Nat → Nat → α) (d N a b : Nat) :
     euclideanDistance T x d N a b = euclideanDistance T x d N b a := by
